@@ -960,15 +960,43 @@ Proof.
   apply vp_dict' with (d' := set_key k v d1); [apply set_key_F2; exact HF|].
   apply set_key_perm; [exact HP|]. rewrite <- (erel_keys _ _ _ HF). exact Hnd.
 Qed.
+Lemma keys_set_key_in k v d : In k (keys d) -> keys (set_key k v d) = keys d.
+Proof.
+  induction d as [|[k0 x] r IH]; intros H; [destruct H|]. cbn [set_key]. destruct (str_eqb k k0) eqn:E; [reflexivity|].
+  cbn [keys map fst]. f_equal. apply IH. destruct H as [H|H]; [|exact H]. simpl in H. subst k0. rewrite str_eqb_refl in E. discriminate.
+Qed.
+Lemma keys_set_key_notin k v d : ~ In k (keys d) -> keys (set_key k v d) = keys d ++ [k].
+Proof.
+  induction d as [|[k0 x] r IH]; intros H; [reflexivity|]. cbn [set_key]. destruct (str_eqb k k0) eqn:E.
+  - apply str_eqb_spec in E. subst k0. exfalso. apply H. left. reflexivity.
+  - cbn [keys map fst app]. f_equal. apply IH. intros Hin. apply H. right. exact Hin.
+Qed.
+Lemma set_key_nodup k v d : NoDup (keys d) -> NoDup (keys (set_key k v d)).
+Proof.
+  intros H. destruct (in_dec str_eq_dec k (keys d)) as [Hin|Hnin].
+  - rewrite keys_set_key_in by exact Hin. exact H.
+  - rewrite keys_set_key_notin by exact Hnin. apply (Permutation_NoDup (Permutation_cons_append (keys d) k)).
+    constructor; assumption.
+Qed.
+Lemma keep_key_nodup k o d : NoDup (keys d) -> NoDup (keys (keep_key k o d)).
+Proof. intros H. unfold keep_key. destruct (lookup k o) as [[| | | t | | | |]|]; try exact H. apply set_key_nodup. exact H. Qed.
+Lemma keep_key_vperm k d d2 q q2 : vperm (VDict d) (VDict d2) -> NoDup (keys d) -> vperm (VDict q) (VDict q2) -> NoDup (keys q) ->
+  vperm (VDict (keep_key k d q)) (VDict (keep_key k d2 q2)).
+Proof.
+  intros Ho Hno Hr Hnr. unfold keep_key.
+  pose proof (vperm_lookup _ _ Ho Hno k) as Hl.
+  destruct (lookup k d) as [x|], (lookup k d2) as [x'|]; simpl in Hl; try contradiction; [|exact Hr].
+  destruct Hl; try exact Hr. apply set_key_vperm; assumption.
+Qed.
 Lemma keep_type_vperm o o' r r' : vperm o o' -> nodup_keys o -> vperm r r' -> nodup_keys r ->
   vperm (keep_type o r) (keep_type o' r').
 Proof.
-  intros Ho Hno Hr Hnr. pose proof Hr as Hr0.
+  intros Ho Hno Hr Hnr. pose proof Hr as Hr0. pose proof Ho as Ho0.
   destruct Ho as [ | | | | | | | d d1 d2 HF HP]; try exact Hr.
   destruct Hr as [ | | | | | | | q q1 q2 HFq HPq]; try exact Hr0. unfold keep_type.
-  pose proof (vperm_lookup _ _ (vp_dict _ _ _ HF HP) (nodup_dict_keys _ Hno) K_Type) as Hl.
-  destruct (lookup K_Type d) as [x|], (lookup K_Type d2) as [x'|]; simpl in Hl; try contradiction; [|exact Hr0].
-  destruct Hl; try exact Hr0. apply set_key_vperm; [exact Hr0 | apply nodup_dict_keys; exact Hnr].
+  pose proof (nodup_dict_keys _ Hno) as Hnd. pose proof (nodup_dict_keys _ Hnr) as Hnq.
+  apply keep_key_vperm; [exact Ho0 | exact Hnd | | apply keep_key_nodup; exact Hnq].
+  apply keep_key_vperm; assumption.
 Qed.
 
 (* permuting the keys inside a resource's definition: same gate, and the resolved resource is the same up to key order *)
